@@ -87,6 +87,7 @@ type valPayload struct {
 	Small    bool   `json:"small"`
 	Orig2    bool   `json:"origin2"`
 	NegZ     bool   `json:"negzero"`
+	BadKey   bool   `json:"badkey"`
 	TL2Opt   bool   `json:"tl2opt"`
 	HasTL2   bool   `json:"hastl2"`
 	TL2      []int  `json:"tl2"`
@@ -393,6 +394,10 @@ func runCorpusTL1(c *core.Ctx, prop string, cp Corpus, k, kmut, kjson, kre, kmut
 			return
 		}
 		if p.Kind == "json" {
+			if p.BadKey {
+				c.Add("values_without_json_spelling_skipped", 1)
+				return
+			}
 			nAlt++
 			fs, err := replayAlt(c, b, &p)
 			if err != nil {
@@ -679,7 +684,7 @@ func bytesVariantChecks(c *core.Ctx, b *Built, p *valPayload, stringVariantJSON 
 	if p.HasTL2 {
 		ins = append(ins, inp{"read2", map[string]any{"op": "read2", "in": p.TL2}})
 	}
-	if p.JSON != nil {
+	if p.JSON != nil && !p.BadKey {
 		var sb strings.Builder
 		if p.JSON.Render(&sb) == nil {
 			ins = append(ins, inp{"readj", map[string]any{"op": "readj", "text": sb.String()}})
@@ -709,7 +714,7 @@ func bytesVariantChecks(c *core.Ctx, b *Built, p *valPayload, stringVariantJSON 
 			if p.HasTL2 && s.Dump.HasTL2 && !eqInts(s.Dump.TL2, p.TL2) {
 				add("bytesvar", key, fmt.Sprintf("[]byte variant after %s writes TL2 %s, string variant/spec %s", in.op, hexs(s.Dump.TL2), hexs(p.TL2)))
 			}
-			if p.JSON != nil {
+			if p.JSON != nil && !p.BadKey { // with a non-UTF-8 key only the text equality below applies
 				if got, err := parseJSON(s.Dump.JSON); err != nil || p.JSON.Match(got, "$") != nil {
 					add("bytesvar", key, fmt.Sprintf("[]byte variant after %s writes JSON %s which differs from the string variant/spec", in.op, s.Dump.JSON))
 				}
@@ -733,7 +738,7 @@ func replayEdge(c *core.Ctx, b *Built, p *valPayload, n int) ([]finding, error) 
 			return map[string]any{"op": "read1b", "in": e.TL1B}, len(e.TL1B)
 		case f == 2 && p.HasTL2:
 			return map[string]any{"op": "read2", "in": e.TL2}, len(e.TL2)
-		case f == 3 && e.JSON != nil:
+		case f == 3 && e.JSON != nil && !p.BadKey: // a value with a non-UTF-8 dictionary key has no JSON spelling
 			var sb strings.Builder
 			if e.JSON.Render(&sb) == nil {
 				return map[string]any{"op": "readj", "text": sb.String()}, -1
@@ -794,7 +799,16 @@ func replayEdge(c *core.Ctx, b *Built, p *valPayload, n int) ([]finding, error) 
 			if p.HasTL2 && last.Dump.HasTL2 && !eqInts(last.Dump.TL2, p.To.TL2) {
 				fs = append(fs, finding{"reuse", key, fmt.Sprintf("reused object holds TL2 %s, a fresh one %s", hexs(last.Dump.TL2), hexs(p.To.TL2))})
 			}
-			if got, err := parseJSON(last.Dump.JSON); err != nil || p.To.JSON.Match(got, "$") != nil {
+			if p.BadKey {
+				// no valid JSON exists for this value (C05's known finding); C09 only asks for "same as fresh"
+				fr2, err := b.script(p.Tn, bytesVariant, s2)
+				if err != nil {
+					return nil, err
+				}
+				if d := fr2.Steps[0].Dump; d != nil && d.JSON != last.Dump.JSON {
+					fs = append(fs, finding{"reuse", key, fmt.Sprintf("reused object prints JSON %s, a fresh one %s", last.Dump.JSON, d.JSON)})
+				}
+			} else if got, err := parseJSON(last.Dump.JSON); err != nil || p.To.JSON.Match(got, "$") != nil {
 				fs = append(fs, finding{"reuse", key, fmt.Sprintf("reused object prints JSON %s, not the fresh object's", last.Dump.JSON)})
 			}
 		}
@@ -919,6 +933,11 @@ func corporaFor(c *core.Ctx) []Corpus {
 func negKey(p *valPayload, f finding) string {
 	if p.NegZ && f.class != "tl1" {
 		return "negative-zero-float"
+	}
+	// a string dictionary key that is not valid UTF-8 cannot be a JSON member name: the writers emit
+	// {"base64":...} in key position, i.e. invalid JSON; one stable key for the class
+	if p.BadKey && (f.class == "json" || f.class == "fn") {
+		return "non-utf8-dictionary-key"
 	}
 	return f.key
 }
